@@ -9,6 +9,7 @@
 -/
 import LW.Proofs.C06Example
 import LW.Proofs.C04bExample
+import LW.Proofs.C06FullMain
 
 namespace LW.C06
 
@@ -304,6 +305,12 @@ the general case needs the evaluation of `groupsOf` on states with pairwise dist
 arbitrary inputs, which is not done. -/
 def zero_indist_classical_statement : Prop := Proofs.C06.zero_indist_classical_statement
 
+/-- … the full statement, proved for every input state (LW/Proofs/C06FullMain.lean): both sides are
+the emission mixture over the photons of `partitionIdx s`; a state whose labels are pairwise
+distinct has one single-photon group per photon (`groupsP_distinct`) -/
+theorem zero_indist_classical : zero_indist_classical_statement :=
+  Proofs.C06.zero_indist_classical
+
 theorem zero_indist_classical_partial (b : BackendKind) (nsq : K → Q) (eps : Q) (U : M K)
     (P : Params Q) (h : InRange P) (hx : P.p2 = 0) (hq : P.pi = 0)
     (hne : ∀ g : FState, g.length = 2 → fullDist b nsq eps U 2 g ≠ []) (F : FState → Q) :
@@ -322,6 +329,12 @@ theorem mix_calcPd (b : BackendKind) (nsq : K → Q) (eps : Q) (U : M K) (nReal 
 input state).  Proved below for one photon in each of two modes; the general case needs the
 alignment of the two enumeration orders (per mode / per photon) for arbitrary inputs. -/
 def basic_path_eq_full_path_statement : Prop := Proofs.C06.basic_path_eq_full_path_statement
+
+/-- … the full statement, proved for every input state (LW/Proofs/C06FullMain.lean): the
+brightness-only statistics are the emission mixture of the occupation vectors
+(`mix_buildStatisticsBasic`), and a state whose labels are all `0` is a single group -/
+theorem basic_path_eq_full_path : basic_path_eq_full_path_statement :=
+  Proofs.C06.basic_path_eq_full_path
 
 theorem basic_path_eq_full_path_partial (b : BackendKind) (nsq : K → Q) (eps : Q) (U : M K)
     (P : Params Q) (h : InRange P) (hx : P.p2 = 0) (hq : P.pi = 1)
@@ -352,6 +365,20 @@ example (F : FState → ℚ) : mix (annotatedPdist .permanent nsqInt (-1) hadama
     mix (Proofs.C04a.calcPd .permanent nsqInt (-1) hadamard 2
       (buildStatisticsBasic (⟨1/2, 0, 1, 0⟩ : Params ℚ) [1, 1])) F :=
   basic_path_eq_full_path_partial .permanent nsqInt (-1) hadamard _ inRange_q1 rfl rfl hadamard_ne_nil F
+
+/-- the full statements on an input with a doubly occupied mode -/
+example (F : FState → ℚ) : mix (annotatedPdist .permanent nsqInt (-1) hadamard 2
+      (buildStatisticsFull (⟨1/2, 0, 0, 0⟩ : Params ℚ) [2, 1])) F =
+    classicalMix (fullDist .permanent nsqInt (-1) hadamard 2) 2 (1/2) (partitionIdx [2, 1]) none F :=
+  zero_indist_classical ℤ ℚ .permanent nsqInt (-1) hadamard 2 _ inRange_q0 rfl rfl [2, 1] rfl
+    (by simp) hadamard_ne_nil F
+
+example (F : FState → ℚ) : mix (annotatedPdist .permanent nsqInt (-1) hadamard 2
+      (buildStatisticsFull (⟨1/2, 0, 1, 0⟩ : Params ℚ) [2, 1])) F =
+    mix (Proofs.C04a.calcPd .permanent nsqInt (-1) hadamard 2
+      (buildStatisticsBasic (⟨1/2, 0, 1, 0⟩ : Params ℚ) [2, 1])) F :=
+  basic_path_eq_full_path ℤ ℚ .permanent nsqInt (-1) hadamard 2 _ inRange_q1 rfl rfl [2, 1] rfl
+    (by simp) hadamard_ne_nil F
 
 example (F : FState → ℚ) : mix (Proofs.C04a.calcPd .permanent nsqInt (-1) hadamard 2 [([1, 1], 1/2), ([0, 0], 1/2)]) F =
     mix [(([1, 1] : FState), (1/2 : ℚ)), ([0, 0], 1/2)]
